@@ -40,6 +40,18 @@ def propsStep (p : Props) : List String → Props × String
       | .ok p' => (p', "ok " ++ showView p')
       | .error e => (p, showExcName e))
     | none => (p, "bad-op")
+  | ["alias", name, v] =>
+    -- another Properties object is given this one's current value of `name` (the same Python list object for a
+    -- repeatable property) and then a further value: values are immutable here, so this object is unaffected.
+    -- Output: whether the assignment to the other object is accepted, and this object's view afterwards.
+    match parseVal v with
+    | some x =>
+      let other := Props.empty p.ptype
+      let acc : Bool := match other.setAttr name x with
+        | .ok _ => true
+        | .error _ => false
+      (p, (if acc then "ok " else "rejected ") ++ showView p)
+    | none => (p, "bad-op")
   | ["pack"] => (p, match p.pack with | .ok b => toHex b | .error e => showExcName e)
   | ["unpack", pt, h] =>
     match pt.toNat?, parseHex h with
